@@ -185,4 +185,36 @@ def obsL (fl : Flow) : Result × Option Val :=
   | .stuck w => (.stuck w, none)
 
 
+/-- a SubjectConfirmation: its data (absent, or present with an optional InResponseTo) -/
+abbrev ConfD := Option (Option String)
+/-- an assertion: its Subject (absent, or the list of its confirmations) -/
+abbrev AssD := Option (List ConfD)
+
+def dataOf (c : ConfD) : Val := match c with | some i => .obj [("in_response_to", optStr i)] | none => .none
+def encConfD (c : ConfD) : Val := .obj [("subject_confirmation_data", dataOf c)]
+def encAssD (a : AssD) : Val :=
+  .obj [("subject", match a with | some cs => .obj [("subject_confirmation", .list (cs.map encConfD))] | none => .none)]
+def selfScan (as : List AssD) : Val := .obj [("response", .obj [("assertion", .list (as.map encAssD))])]
+
+/-- the assertions the model sees -/
+def toAssertion (a : AssD) : Sp.Assertion :=
+  { subject := a.map (fun cs => { nameId := none, confs := cs.map (fun d => { method := .bearer, data := d.map (fun i => { irt := i }) }) }) }
+
+/-- does this confirmation carry another InResponseTo? -/
+def confMis (irp : Option String) (c : ConfD) : Bool :=
+  match c with
+  | some i => i != irp
+  | none => false
+
+inductive Scan3 where
+  | ok | mismatch | attrErr
+deriving DecidableEq, Repr
+
+/-- what the comparison of the confirmations' InResponseTo finds, assertion by assertion -/
+def scan3 (irp : Option String) : List AssD → Scan3
+  | [] => .ok
+  | none :: _ => .attrErr
+  | some cs :: rest => if cs.any (confMis irp) then .mismatch else scan3 irp rest
+
+
 end PyTie
